@@ -1,6 +1,6 @@
 """Unit `expr`: the three implementations of the parenthesis rule (C05), skeleton preservation of the
 expression spine (C02), `- -x` (C01.3). Real text of src/formatters/expression.rs."""
-from gen import Unit, Fn, Item, Raw, RawFile, Hole, After, Before, Loop
+from gen import Unit, Fn, Item, Raw, RawFile, Hole, After, Before, Loop, Between
 from common import *
 
 SPEC_EXPR = r"""
@@ -73,7 +73,7 @@ def items():
            contract="ensures type_assertion_id(r) == type_assertion_id(*type_assertion), ta_safe(r), ta_nl(r),",
            note="line facts (class C): `::` is formatted with [newline, indent] appended to its leading trivia"),
         Fn(EX, "format_binop", mode="stub", contract="ensures binop_id(r) == binop_id(*binop), binop_open(r) ==> binop_open(*binop),",
-           note="line facts (class C): the formatted operator carries the trailing comments of the source operator and no others"),
+           note="line facts: fmt_op! maps the operator token through format_symbol, whose formatted trailing trivia hold a line comment only if the source token's do (proved in unit tok: C01.symbol_open_only_if_source; the wanted symbols carry spaces only); that a source token with a line comment in its trailing trivia is open is the parser's convention (class A)"),
         Fn(EX, "format_unop", mode="stub", contract="ensures unop_id(r) == unop_id(*unop),"),
         Fn(EX, "removed_parentheses_comments", mode="stub", contract="ensures trivia_lines_ok(r.0@),",
            note="two iterator-adapter chains collecting the comments around both parentheses of a removed pair (C03: bounded witnesses only)"),
@@ -161,8 +161,16 @@ impl ToRange for Expression { #[verifier::external_body] fn to_range(&self) -> (
 """, module="formatters::expression"),
         Fn(EX, "find", impl_of="LeftmostRangeHang", mode="stub"),
         Fn(EX, "required_shape", impl_of="LeftmostRangeHang", mode="stub"),
-        Fn(EX, "hang_binop", mode="stub", contract="ensures binop_id(r) == binop_id(binop), binop_nl(r), !binop_open(r),",
-           note="line facts (class C): hang_binop replaces the trailing trivia by one space and ends the leading trivia with [newline, indent]"),
+        Raw("""
+#[verifier::external_body] pub fn indented_comments(ctx: &Context, shape: Shape, comments: Vec<Token>) -> (r: Vec<Token>) { unimplemented!() /* .iter().flat_map(|x| vec![newline, indent, x.to_owned()]).collect() */ }
+""", module="formatters::expression"),
+        Fn(EX, "hang_binop", contract="""
+    ensures binop_id(r) == binop_id(binop),
+        binop_nl(r), !binop_open(r), //# C01.hang_binop_starts_line
+""", edits=[
+            Between("binop\n        .leading_comments()", ".collect::<Vec<_>>()", "indented_comments(ctx, shape, binop.leading_comments())", why="iterator chain (flat_map closure): each leading comment of the operator behind [newline, indent]"),
+            Between("rhs\n        .leading_comments()", ".collect::<Vec<_>>()", "indented_comments(ctx, shape, rhs.leading_comments())", why="iterator chain (flat_map closure): each leading comment of the right operand behind [newline, indent]"),
+        ]),
         Fn(EX, "is_hang_binop_over_width", mode="stub"),
         Fn(EX, "binop_expression_contains_comments", mode="stub", contract="""
     ensures (match *expression { Expression::BinaryOperator { binop, .. } => binop == *top_binop && binop_open(binop), _ => false }) ==> r,""",
@@ -252,6 +260,7 @@ LABELS = {
     "C01.format_expression.line_safe": dict(props=["C01", "C02", "C03"], text="format_expression: same"),
     "C01.parenthesise_line_safe": dict(props=["C01", "C02", "C03"], text="parenthesise (kept parentheses): the expression starts a new line when `(` is followed by a line comment, and `)` starts a new line when the expression ends with one"),
     "C05.parenthesise_shape": dict(props=["C05", "C02"], text="parenthesise returns the expression inside one pair of parentheses"),
+    "C01.hang_binop_starts_line": dict(props=["C01", "C02"], text="hang_binop: the leading trivia it builds end with [newline, indent] (two real pushes) and the trailing trivia become one space: the operator starts a line and nothing is open behind it"),
     "C01.unary_operand_below_comment": dict(props=["C01"], text="move_operand_below_comment: when the operator is followed by a line comment the operand starts a new line; nothing else changes"),
     "C01.double_minus_parens_line_safe": dict(props=["C01"], text="keep_double_minus_apart: the parentheses it adds do not end up behind a line comment (the operand's trailing comments are moved behind `)`)"),
     "C01.bracket_string_visible_internal": dict(props=["C01"], text="same, for format_expression_internal (induction)"),
